@@ -77,6 +77,11 @@ def _calls():
         "size": (False, lambda env, f, p: env.sizeo.get_size(f, p % MEASURES)),
         "theory": (False, lambda env, f, p: str(env.theoryo.get_theory(f))),
         "get_logic": (False, lambda env, f, p: str(orc.get_logic(f, env))),
+        # human-readable serialisation goes through the environment-wide env.serializer (str/repr use threshold 5)
+        "str": (False, lambda env, f, p: str(f)),
+        "repr": (False, lambda env, f, p: repr(f)),
+        "serialize": (False, lambda env, f, p: f.serialize()),
+        "serialize_k": (False, lambda env, f, p: f.serialize(threshold=1 + p % 5)),
         "to_smtlib_dag": (False, lambda env, f, p: smt(env, f, True)),
         "to_smtlib_tree": (False, lambda env, f, p: smt(env, f, False)),
         "parse": (True, parse_back),
@@ -173,22 +178,30 @@ def one_history(rnd, C, hist_len, record):
     nodes = walkgen.build(env, rows)
     bools = [i for i, n in enumerate(nodes) if env.stc.get_type(n).is_bool_type()]
     names = sorted(C)
-    history = []
-    for _ in range(hist_len):
-        nm = rnd.choice(names)
-        i = rnd.choice(bools) if C[nm][0] else rnd.randrange(len(nodes))
-        history.append((nm, i, rnd.randrange(1000)))
     pnm = rnd.choice(names)
     pi = rnd.choice(bools[-3:]) if C[pnm][0] or rnd.random() < 0.7 else rnd.randrange(len(nodes))
     probe = (pnm, pi, rnd.randrange(1000))
+    pbool = env.stc.get_type(nodes[pi]).is_bool_type()
+    history = []
+    for _ in range(hist_len):
+        nm = rnd.choice(names)
+        if rnd.random() < 0.3 and (pbool or not C[nm][0]):
+            i = pi            # earlier calls on the probe formula itself (per-formula caches)
+        else:
+            i = rnd.choice(bools) if C[nm][0] else rnd.randrange(len(nodes))
+        history.append((nm, i, rnd.randrange(1000)))
     problems = []
+    import pysmt.environment as pe
 
     def do(e, ns, call):
         nm, i, prm = call
+        pe.push_env(e)      # FNode.serialize / str / simplify() resolve services through get_env()
         try:
             return ("ok", C[nm][1](e, ns[i], prm))
         except Exception as ex:        # noqa
             return ("raise", type(ex).__name__)
+        finally:
+            pe.pop_env()
     failing = False
     for call in history:
         o = do(env, nodes, call)
@@ -382,16 +395,21 @@ def replay_history(rows, history, probe):
     env = Environment()
     recs = [Recorder(nm, getattr(env, nm), kind, early, oneshot) for nm, kind, early, oneshot in WALKERS]
     nodes = walkgen.build(env, rows)
+    import pysmt.environment as pe
+    pe.push_env(env)
     for nm, i, prm in history:
         C[nm][1](env, nodes[i], prm)
         for r in recs:
             r.check_memo_stable("%s(row %d)" % (nm, i))
     a = C[probe[0]][1](env, nodes[probe[1]], probe[2])
+    pe.pop_env()
     for r in recs:
         r.check_memo_stable("probe")
     fe = Environment()
     fn = walkgen.build(fe, walkgen.restrict(rows, probe[1]))
+    pe.push_env(fe)
     b = C[probe[0]][1](fe, fn[probe[1]], probe[2])
+    pe.pop_env()
     ka, kb = walkgen.rename_fresh(walkgen.canon_value(a)), walkgen.rename_fresh(walkgen.canon_value(b))
     print("after history:", ka[:600])
     print("fresh        :", kb[:600])
